@@ -44,10 +44,11 @@ PROPS = {
         'not_covered': ['SHA-256 itself (uninterpreted)', 'clvmr allocator (assumed ghost view)', 'Hash impl for SExp', 'consensus tree hash = tree_hash is a transcription'],
     },
     'C15': {
-        'e3': ['srcloc'],
-        'units': ['srcloc'],
-        'decided': 'Srcloc arithmetic: advance follows the byte (newline, tab stop, other), combine/ext start at the earlier start and never reach beyond the hull of their arguments, add_onto/ending/len/src_location_min/max',
-        'not_covered': ['reader state invariant of parse_sexp_step (all stored locations lie in [start, cursor])', 'token extents', 'byte-at-a-time == whole', 'compiler-generated locations'],
+        'e3': ['srcloc', 'reader_locs'],
+        'e3_always': ['reader_locs'],
+        'units': ['srcloc', 'reader'],
+        'decided': 'Srcloc arithmetic: advance follows the byte (newline, tab stop, other), combine/ext start at the earlier start and never reach beyond the hull of their arguments, add_onto/ending/len/src_location_min/max; ParsePartialResult::push (of which whole-text parsing is the fold): the transition function is called with the location of the byte being consumed and the cursor advances by exactly that byte on every non-error step',
+        'not_covered': ['parse_sexp_step itself (300-line state machine): token extents, list extents and error locations are a bounded stand-in only (E3: all texts of <= 4 tokens over 13 token kinds against an independent position table, byte-at-a-time vs whole)', 'compiler-generated locations'],
     },
     'C20': {
         'units': ['tables'],
